@@ -442,4 +442,5 @@ def run(ctx):
     ctx.do(c05.r5_3)
     ctx.do(r20_9)
     ctx.do(c03.r3_6)  # POP3 reads run beside a suspended expunge: the lists they index must never be half-updated
+    ctx.do(c03.r3_7)  # QUIT's removals go through the reverse indexes
     ctx.note("R20.6 (sizes from the shared renderer) is decided by C16 R16.1")
